@@ -98,6 +98,26 @@ def make_strategy(placer, premise):
         # chip that has since died (only without global reservations, which
         # index the machine with every exception - observation O3)
         m = case["machine"]
+        # lopsided chips: none of one resource, plenty of the others (a chip
+        # whose cores are all taken but whose memory is free), possibly with
+        # the exception's keys in another order than the machine's
+        live = pr.live_chips(m)
+        pinned = set(tuple(c["chip"]) for c in case["constraints"]
+                     if c["type"] == "loc")
+        if len(m["resources"]) >= 2 and not premise and \
+                draw(st.integers(0, 2)) == 0:
+            names = sorted(m["resources"])
+            for c in draw(st.lists(st.sampled_from(live), max_size=3,
+                                   unique=True)):
+                if c in pinned or any((x, y) == c
+                                      for x, y, r in m["exceptions"]):
+                    continue
+                zero = draw(st.sampled_from(names))
+                m["exceptions"].append(
+                    [c[0], c[1], dict((r, 0 if r == zero else
+                                       m["resources"][r])
+                                      for r in names)])
+            m["exceptions_reversed"] = draw(st.booleans())
         glob = any(c["type"] == "reserve" and c["loc"] is None
                    for c in case["constraints"])
         if m["dead_chips"] and not glob and draw(st.integers(0, 2)) == 0:
